@@ -22,22 +22,22 @@ func SeedFor(seed int64, workload string, idx int) int64 {
 
 // Profile tunes one case.
 type Profile struct {
-	Workload  string
-	Adversary bool    // Byzantine members active
-	MaxSteps  int
-	MaxH      uint64
-	MinN, MaxN int
-	Tail      bool // run the stabilised tail after the random prefix (C05)
-	TailQuiet bool // the adversary is silent in the tail
-	TailProp  string // property under which tail violations are reported (default C05)
-	CommitFailures bool // one node's commit callback fails at PRNG-determined heights
-	SyncPct   int  // node-sync steps per hundred (0: default 0..2)
-	SplitHandoff bool // model the main-loop -> worker hand-off of syncs and election triggers as two separate steps
-	LenientValidators bool // in a third of the cases the consumers' validators do not object to a missing block
-	NoRejects bool // correct validators never reject good blocks
-	HonestOnly bool // no Byzantine ids at all
-	KeepTrace bool
-	AdvWeights map[string]int // optional strategy weights override
+	Workload          string
+	Adversary         bool // Byzantine members active
+	MaxSteps          int
+	MaxH              uint64
+	MinN, MaxN        int
+	Tail              bool   // run the stabilised tail after the random prefix (C05)
+	TailQuiet         bool   // the adversary is silent in the tail
+	TailProp          string // property under which tail violations are reported (default C05)
+	CommitFailures    bool   // one node's commit callback fails at PRNG-determined heights
+	SyncPct           int    // node-sync steps per hundred (0: default 0..2)
+	SplitHandoff      bool   // model the main-loop -> worker hand-off of syncs and election triggers as two separate steps
+	LenientValidators bool   // in a third of the cases the consumers' validators do not object to a missing block
+	NoRejects         bool   // correct validators never reject good blocks
+	HonestOnly        bool   // no Byzantine ids at all
+	KeepTrace         bool
+	AdvWeights        map[string]int // optional strategy weights override
 }
 
 // GenConfig draws committees, weights, leader orders and the Byzantine set.
@@ -175,29 +175,29 @@ func (c *CaseConfig) Describe() map[string]interface{} {
 
 // Result of one case.
 type Result struct {
-	Case     int
-	Seed     int64
-	Steps    int
-	Viol     []Violation
-	Stats    map[string]int
-	Cfg      *CaseConfig
-	Trace    []StepRec
-	Sched    [32]byte // hash of the schedule
-	StateSet map[[16]byte]bool
-	Commits  int
-	Forky    bool // >= 2 distinct proposals seen at some height
-	MultiView bool // correct nodes committed one height in different views
+	Case        int
+	Seed        int64
+	Steps       int
+	Viol        []Violation
+	Stats       map[string]int
+	Cfg         *CaseConfig
+	Trace       []StepRec
+	Sched       [32]byte // hash of the schedule
+	StateSet    map[[16]byte]bool
+	Commits     int
+	Forky       bool // >= 2 distinct proposals seen at some height
+	MultiView   bool // correct nodes committed one height in different views
 	ByzWeightOK bool
-	TailViews int
+	TailViews   int
 }
 
 // sched holds the per-case network behaviour.
 type sched struct {
 	pDrop, pDup, pTimeout, pSync, pAdv int
-	partition map[string]int // node -> side; messages across sides are held back while partitioned
-	partUntil int
-	starve    string
-	starveUntil int
+	partition                          map[string]int // node -> side; messages across sides are held back while partitioned
+	partUntil                          int
+	starve                             string
+	starveUntil                        int
 }
 
 // RunCase executes one case of a workload.
@@ -438,7 +438,6 @@ func (w *World) ByzWeightOK() bool {
 }
 
 var _ = big.NewInt
-
 
 func (w *World) newestCanon() *CommitRec {
 	var best *CommitRec
